@@ -562,7 +562,7 @@ def fam_conv_chain(rng, big=False):
 
 SINGLE_KINDS = ["conv", "dw", "fc", "maxpool", "avgpool", "add", "sub", "mul", "logistic", "tanh", "lrelu", "hswish",
                 "softmax", "mean", "resize_bilinear", "resize_nearest", "quantize", "tconv", "reshape", "pad", "pad_bc",
-                "slice", "concat", "minimum", "maximum", "relu", "abs", "add_bcast", "mul_scalar", "transpose"]
+                "slice", "concat", "minimum", "maximum", "relu", "abs", "add_bcast", "mul_scalar", "transpose", "conv_head"]
 
 
 def fam_single_op(rng, kind=None):
@@ -585,6 +585,12 @@ def fam_single_op(rng, kind=None):
     if kind == "fc":
         x = _inp(net, rng, [rng.choice([1, 1, 2, 4]), rng.choice([1, 8, 16, 33, 100, 256])], dt)
         y = fully_connected(net, rng, x, rng.choice([1, 2, 10, 16, 64, 100]), bias=rng.random() < 0.8)
+    elif kind == "conv_head":
+        # classifier head after global pooling: 1x1 CONV_2D on a [1,1,1,C] input (Vela rewrites it to a FullyConnected
+        # whose original_type stays Conv2DBias, tflite_graph_optimiser.convert_conv_to_fc)
+        x = _inp(net, rng, [1, 1, 1, rng.choice([8, 16, 17, 32, 64, 100])], dt)
+        y = conv2d(net, rng, x, rng.choice([2, 8, 10, 16, 33]), (1, 1), (1, 1), (1, 1), rng.choice(["SAME", "VALID"]),
+                   rng.choice(["NONE", "RELU"]))
     elif kind in ("softmax",):
         x = _inp(net, rng, [1, rng.choice([2, 10, 64, 100])] if rng.random() < 0.6 else [1, h, w, c], dt)
         y = unary(net, rng, "SOFTMAX", x, dict(Beta=1.0))
